@@ -68,9 +68,9 @@ META = dict(
                      "api_scalar_compared": 1400000,
                      "api_sparse_objects": 15000,
                      "api_missing_objects": 7500,
-                     "api_asymmetric_objects": 1500,
-                     "api_history_objects": 1500,
-                     "api_history_asymmetric": 500,
+                     "api_asymmetric_objects": 600,
+                     "api_history_objects": 600,
+                     "api_history_asymmetric": 200,
                      "conservation_checked": 20000, "boundary_cases": 6500,
                      "boundary_cases_modes_disagree_in_R": 2500,
                      "sequential_vs_matrix_compared": 30000}},
